@@ -116,6 +116,9 @@ def main():
         text = open('/repo/' + f).read()
         for s in sites(f, text):
             allsites.append((f, s))
+    ops = os.environ.get('MUT_OPS')
+    if ops:
+        allsites = [x for x in allsites if x[1][0] in ops.split(',')]
     rng.shuffle(allsites)
     done = set()
     res_path = os.path.join(outdir, 'results.jsonl')
